@@ -359,16 +359,25 @@ def run_family(rep, scns, what='scenario'):
     scenario is a failure of the machinery."""
     out = []
     nerr = 0
-    for c in vmrun.run_scenarios(scns):
-        if c.get('timeout'):
-            rep.violation('%s: the evaluation did not finish within %d s under its op budget (cost not bounded by the budget): %r' %
-                          (what, vmrun.SCENARIO_TIMEOUT_S, c.get('sources')), {'calls': c.get('sources')})
-        elif 'harness_error' in c:
-            nerr += 1
-            if nerr <= 3:
-                rep.machinery.append('%s could not be recorded: %s' % (what, c['harness_error']))
-        else:
-            out.append(c)
+    ntimeout = 0
+    scns = list(scns)
+    for start in range(0, len(scns), 512):
+        # in batches: once a few scenarios have run into the wall-clock guard the point is made - the rest of the
+        # family is skipped instead of waiting for the guard hundreds of times
+        if ntimeout >= 3:
+            rep.notes['scenarios_skipped_after_timeouts'] = rep.notes.get('scenarios_skipped_after_timeouts', 0) + len(scns) - start
+            break
+        for c in vmrun.run_scenarios(scns[start:start + 512], start_tid=start + 1):
+            if c.get('timeout'):
+                ntimeout += 1
+                rep.violation('%s: the evaluation did not finish within %d s under its op budget (cost not bounded by the budget): %r' %
+                              (what, vmrun.SCENARIO_TIMEOUT_S, c.get('sources')), {'calls': c.get('sources')})
+            elif 'harness_error' in c:
+                nerr += 1
+                if nerr <= 3:
+                    rep.machinery.append('%s could not be recorded: %s' % (what, c['harness_error']))
+            else:
+                out.append(c)
     return out
 
 
